@@ -8,10 +8,13 @@
 
 use std::{
     future::Future,
-    io::Read,
-    net::Ipv6Addr,
+    io::{BufRead, BufReader, Cursor, Read, Write},
+    net::{Ipv6Addr, TcpListener},
     pin::Pin,
-    sync::{Arc, Mutex},
+    sync::{
+        atomic::{AtomicBool, Ordering},
+        Arc, Mutex,
+    },
     task::{Context as TaskContext, Poll, RawWaker, RawWakerVTable, Waker},
 };
 
@@ -881,4 +884,185 @@ pub fn friendly_hosts(rng: &mut Rng, allow: &Option<Vec<String>>) -> Vec<String>
         }
     }
     out
+}
+
+// ---------------------------------------------------------------- loopback listener
+
+/// A plain HTTP/1.1 listener on 127.0.0.1: `/r/<hex location>` answers 302 with that Location,
+/// anything else 200 with an empty body. Records `METHOD path` of every request it receives.
+pub struct Loopback {
+    pub port: u16,
+    pub hits: Arc<Mutex<Vec<String>>>,
+    stop: Arc<AtomicBool>,
+    handle: Option<std::thread::JoinHandle<()>>,
+}
+
+impl Loopback {
+    pub fn base(&self) -> String {
+        format!("http://127.0.0.1:{}", self.port)
+    }
+
+    /// URL on this listener that answers with a redirect to `loc`.
+    pub fn redirect_to(&self, loc: &str) -> String {
+        format!("{}/r/{}", self.base(), hex::encode(loc))
+    }
+
+    pub fn take(&self) -> Vec<String> {
+        std::mem::take(&mut *self.hits.lock().unwrap())
+    }
+
+    pub fn shutdown(&mut self) {
+        self.stop.store(true, Ordering::SeqCst);
+        if let Some(h) = self.handle.take() {
+            let _ = h.join();
+        }
+    }
+}
+
+pub fn loopback() -> Option<Loopback> {
+    let listener = TcpListener::bind("127.0.0.1:0").ok()?;
+    let port = listener.local_addr().ok()?.port();
+    listener.set_nonblocking(true).ok()?;
+    let hits = Arc::new(Mutex::new(vec![]));
+    let stop = Arc::new(AtomicBool::new(false));
+    let (h2, s2) = (hits.clone(), stop.clone());
+    let handle = std::thread::spawn(move || {
+        while !s2.load(Ordering::SeqCst) {
+            match listener.accept() {
+                Ok((mut stream, _)) => {
+                    let _ = stream.set_nonblocking(false);
+                    let _ = stream.set_read_timeout(Some(std::time::Duration::from_secs(5)));
+                    let mut reader = BufReader::new(stream.try_clone().expect("clone"));
+                    let mut first = String::new();
+                    let _ = reader.read_line(&mut first);
+                    let mut content_length = 0usize;
+                    loop {
+                        let mut l = String::new();
+                        match reader.read_line(&mut l) {
+                            Ok(n) if n > 2 => {
+                                if let Some(v) = l.to_ascii_lowercase().strip_prefix("content-length:") {
+                                    content_length = v.trim().parse().unwrap_or(0);
+                                }
+                            }
+                            _ => break,
+                        }
+                    }
+                    let mut body = vec![0u8; content_length.min(1 << 20)];
+                    let _ = reader.read_exact(&mut body);
+                    let mut it = first.split_whitespace();
+                    let method = it.next().unwrap_or("?").to_string();
+                    let path = it.next().unwrap_or("/").to_string();
+                    h2.lock().unwrap().push(format!("{method} {path}"));
+                    let resp = match path.strip_prefix("/r/").and_then(|h| hex::decode(h).ok()) {
+                        Some(loc) => format!(
+                            "HTTP/1.1 302 Found\r\nLocation: {}\r\nContent-Length: 0\r\nConnection: close\r\n\r\n",
+                            String::from_utf8_lossy(&loc)
+                        ),
+                        None => "HTTP/1.1 200 OK\r\nContent-Length: 0\r\nConnection: close\r\n\r\n".to_string(),
+                    };
+                    let _ = stream.write_all(resp.as_bytes());
+                }
+                Err(_) => std::thread::sleep(std::time::Duration::from_millis(2)),
+            }
+        }
+    });
+    Some(Loopback { port, hits, stop, handle: Some(handle) })
+}
+
+// ---------------------------------------------------------------- request sites of the SDK
+
+/// The request sites of `Model/C26.lean` (`Site`), driven on the real code.
+#[derive(Clone, Copy, Debug, PartialEq, Eq)]
+pub enum SiteKind {
+    /// `Context::resolver()` of the configured Context
+    Ctx,
+    /// `Builder::sign` with a signer that names a time authority: the signer's default
+    /// `send_timestamp_request` (builds `Context::new()`)
+    Tsa,
+    /// the settings-configured remote signer (`SyncGenericResolver::with_redirects()`)
+    Remote,
+}
+
+impl SiteKind {
+    pub fn tag(self) -> &'static str {
+        match self {
+            SiteKind::Ctx => "ctx",
+            SiteKind::Tsa => "tsa",
+            SiteKind::Remote => "remote",
+        }
+    }
+}
+
+const FIXTURE_CERT: &str = "/repo/sdk/tests/fixtures/certs/es256.pub";
+const FIXTURE_KEY: &str = "/repo/sdk/tests/fixtures/certs/es256.pem";
+const FIXTURE_JPEG: &str = "/repo/sdk/tests/fixtures/earth_apollo17.jpg";
+
+fn site_class(e: &HttpResolverError) -> &'static str {
+    match e {
+        HttpResolverError::UriDisallowed { .. } => "uri-disallowed",
+        HttpResolverError::RedirectDisallowed { .. } => "redirect-disallowed",
+        HttpResolverError::RedirectTargetDisallowed { .. } => "target-disallowed",
+        _ => "err",
+    }
+}
+
+/// One request issued at `kind` under the caller's configuration (`allow`, `redirects`) to `url`
+/// (on the loopback listener). Returns the outcome class (`ok` = the transport's final answer was
+/// delivered, a refusal class, or `err`) and the requests the listener received.
+pub fn run_site(lb: &Loopback, kind: SiteKind, allow: &Option<Vec<String>>, redirects: bool, url: &str) -> Result<(String, Vec<String>), String> {
+    use c2pa::{crypto::time_stamp::TimeStampError, Builder, Context, Error, SigningAlg};
+    let mut core = serde_json::json!({ "allow_redirects": redirects });
+    if let Some(v) = allow {
+        core["allowed_network_hosts"] = serde_json::json!(v);
+    }
+    let mut settings = serde_json::json!({ "core": core });
+    let cert = std::fs::read(FIXTURE_CERT).map_err(|e| format!("fixture cert: {e}"))?;
+    if kind == SiteKind::Remote {
+        settings["signer"] = serde_json::json!({ "remote": { "url": url, "alg": "es256", "sign_cert": String::from_utf8_lossy(&cert) } });
+    }
+    let ctx = Context::new().with_settings(settings.to_string().as_str()).map_err(|e| format!("settings: {e}"))?;
+    lb.take();
+    match kind {
+        SiteKind::Ctx => {
+            let rq = Request::post(url).body(b"data".to_vec()).map_err(|e| e.to_string())?;
+            let class = match ctx.resolver().http_resolve(rq) {
+                Ok(_) => "ok",
+                Err(e) => site_class(&e),
+            };
+            Ok((class.to_string(), lb.take()))
+        }
+        SiteKind::Remote => {
+            let signer = ctx.signer().map_err(|e| format!("remote signer: {e}"))?;
+            let class = if signer.sign(b"data").is_ok() { "ok" } else { "err" };
+            Ok((class.to_string(), lb.take()))
+        }
+        SiteKind::Tsa => {
+            let key = std::fs::read(FIXTURE_KEY).map_err(|e| format!("fixture key: {e}"))?;
+            let src = std::fs::read(FIXTURE_JPEG).map_err(|e| format!("fixture jpeg: {e}"))?;
+            let signer = c2pa::create_signer::from_keys(&cert, &key, SigningAlg::Es256, Some(url.to_string())).map_err(|e| format!("signer: {e}"))?;
+            // outcome class: the signer's own request function (the error variant survives here)
+            let class = match signer.send_timestamp_request(b"verif") {
+                None => "no-request",
+                Some(Ok(_)) => "ok",
+                // the listener is no time authority: its 200 arrives as "HTTP error response"
+                Some(Err(Error::TimeStampError(TimeStampError::HttpErrorResponse(..)))) => "ok",
+                Some(Err(Error::TimeStampError(TimeStampError::HttpResolverError(e)))) => site_class(&e),
+                Some(Err(_)) => "err",
+            };
+            lb.take();
+            // requests: signing end to end with the configured Context
+            let mut b = Builder::from_context(ctx)
+                .with_definition(r#"{"title":"site","format":"image/jpeg","claim_generator_info":[{"name":"verif","version":"1"}]}"#)
+                .map_err(|e| format!("definition: {e}"))?;
+            let mut out = Cursor::new(Vec::new());
+            let _ = b.sign(signer.as_ref(), "image/jpeg", &mut Cursor::new(src), &mut out);
+            Ok((class.to_string(), lb.take()))
+        }
+    }
+}
+
+/// The URI of a request the listener recorded.
+pub fn hit_uri(lb: &Loopback, hit: &str) -> Option<Uri> {
+    let path = hit.split_whitespace().nth(1)?;
+    format!("{}{}", lb.base(), path).parse().ok()
 }
